@@ -87,10 +87,20 @@ class Repo:
             except SyntaxError as e:
                 raise AnalysisError(f"cannot parse {p}: {e}")
         self.classes: dict[str, Cls] = {}
+        self.cls_by_key: dict[tuple, Cls] = {}
+        self.clashes: dict[str, list] = {}
         for m in self.mods.values():
             for c in m.classes.values():
-                # class names are unique in the package today; keep the first and remember clashes
-                self.classes.setdefault(c.name, Cls(m, c))
+                k = Cls(m, c)
+                self.cls_by_key[(m.name, c.name)] = k
+                if c.name in self.classes:
+                    # simple-name clash (e.g. style.Line vs the deprecated current.Line alias): by-name lookups keep the
+                    # class with more members; module-aware lookups (resolve_name, mro) are exact
+                    self.clashes.setdefault(c.name, [self.classes[c.name]]).append(k)
+                    if len(c.body) > len(self.classes[c.name].node.body):
+                        self.classes[c.name] = k
+                else:
+                    self.classes[c.name] = k
         self.paths = paths
 
     # ------------------------------------------------------------------ lookup helpers
@@ -114,14 +124,14 @@ class Repo:
         """linearised by-name MRO (C3 not needed for this single-inheritance-mostly code base; depth-first, left to right, dedup keeping last)"""
         out = []
 
-        def walk(n):
-            c = self.classes.get(n)
-            if c is None:
+        def walk(c):
+            if c is None or len(out) > 200:
                 return
             out.append(c)
             for b in c.base_names:
-                walk(b)
-        walk(name)
+                r = self.resolve_name(c.mod, b)
+                walk(r[1] if r and r[0] == "class" else (self.classes.get(b) if b not in self.clashes else None))
+        walk(name if isinstance(name, Cls) else self.classes.get(name))
         seen, res = set(), []
         for c in reversed(out):
             if c.name not in seen:
@@ -132,7 +142,7 @@ class Repo:
         return res
 
     def subclasses(self, name) -> list[Cls]:
-        return [c for c in self.classes.values() if any(b.name == name for b in self.mro(c.name)[1:])]
+        return [c for c in self.cls_by_key.values() if any(b.name == name for b in self.mro(c)[1:])]
 
     def find_method(self, clsname, meth, kind="method"):
         for c in self.mro(clsname):
@@ -154,7 +164,7 @@ class Repo:
         if name in mod.funcs:
             return ("func", mod, mod.funcs[name])
         if name in mod.classes:
-            return ("class", self.classes.get(name) or Cls(mod, mod.classes[name]))
+            return ("class", self.cls_by_key[(mod.name, name)])
         if name in mod.assigns:
             return ("const", mod, mod.assigns[name])
         if name in mod.imports:
@@ -177,7 +187,7 @@ class Repo:
             for f in m.funcs.values():
                 yield m, f.name, f, None
             for c in m.classes.values():
-                cl = self.classes.get(c.name)
+                cl = self.cls_by_key[(m.name, c.name)]
                 for n in c.body:
                     if isinstance(n, ast.FunctionDef):
                         kind = ""
